@@ -225,7 +225,8 @@ Init == /\ kind \in Kinds /\ ks = K0 /\ ps = S0 /\ erd = {} /\ ewr = {}
    keep the number of histories down; addWriter follows the decision taken). *)
 HowOK(o, i, first) == IF i THEN o \in IntCapable /\ o \notin ks.objs /\ (first \/ o \in ks.ints)
                       ELSE o \notin ks.ints
-How(k, o, i) == IF i THEN [k EXCEPT !.ints = @ \cup {o}] ELSE [k EXCEPT !.objs = @ \cup {o}]
+How(k, o, i) == IF i THEN [k EXCEPT !.ints = @ \cup {o}]
+                ELSE IF o \in IntCapable THEN [k EXCEPT !.objs = @ \cup {o}] ELSE k   \* (only where there is a choice)
 AddReader(o, i) ==
   /\ o \in RegObj \cap ks.open /\ o \notin erd /\ HowOK(o, i, TRUE)
   /\ LET k1 == How(ks, o, i)
